@@ -29,6 +29,8 @@ def graph(name, nodes, edges, strategies, deadline, progress=None, release=0):
 CL = {
     "c1": [[{"CPU": 1}]], "c2": [[{"CPU": 2}]], "c1c1": [[{"CPU": 1}, {"CPU": 1}]],
     "c1|c1": [[{"CPU": 1}], [{"CPU": 1}]],
+    # two CPUs listed as two entries of the same resource name
+    "c1+1": [[{"CPU": 1, "CPU#2": 1}]],
 }
 NOW = 3
 
@@ -59,8 +61,10 @@ def instances(tier, seed):
         for strat_kind, ss in (("one", one), ("two", two), ("fastslow", fast_slow)):
             if k == 4 and strat_kind != "one":
                 continue
-            for ck in ("c1", "c2", "c1c1"):
+            for ck in ("c1", "c2", "c1c1", "c1+1"):
                 if strat_kind == "two" and ck == "c1":
+                    continue
+                if ck == "c1+1" and (k > 2 or strat_kind == "fastslow"):
                     continue
                 for bk, blk in blockers.items():
                     for dl_kind in ("tight", "staggered", "loose", "fastonly"):
